@@ -12,6 +12,8 @@ def run(ck: Check):
     from explore import oracle_session
     from universe import session_universe
     session_universe(ck, oracle_session, quick=ck.tier == "quick")
+    from envmatrix import run_matrix
+    run_matrix(ck, ("C02",))
     from scale import long_run_kill_invariant
     long_run_kill_invariant(ck)
     # file names at the limit of the file system: an extension with which 'original<ext>' and '<n>-boring<ext>' still fit
